@@ -204,6 +204,30 @@ def check_case(case, ctx):
             ctx.count("history:" + kind)
             judge_partitions({**case, "blocks": None}, ctx, now, dataset, scheme,
                              {"ds": now, "scheme": sch, "after": kind, "original_ds": ds})
+    # -- a dataset pickled by another interpreter: its partition against a consensus built here ----------------------------
+    if ctx.index < 10:
+        batch = algos.pickled_batch(ctx)
+        if ctx.index < len(batch):
+            raw_p, d_p = batch[ctx.index]
+            sch_p = libx.mk_scheme(ref.PRESETS["unifying"])
+            stp, pf_p = call(ck.OrderedPartition.parfront_partition, d_p, sch_p)
+            ctx.count("partitions_of_datasets_pickled_by_another_interpreter")
+            if stp == "exc":
+                ctx.violation(f"C07/partition-raises-{type(pf_p).__name__}", "parfront_partition raised on a dataset pickled "
+                              "by another interpreter: " + exc_desc(pf_p), {"ds": raw_p, "pickled_elsewhere": True})
+            else:
+                groups_p = raw_groups(pf_p.partition)
+                if ref.is_partition_of(groups_p, ref.universe(raw_p)):
+                    # the ranking made of the groups themselves respects the partition by construction
+                    stc, ans = call(lambda: pf_p.consistent_with(ck.Consensus([libx.mk_ranking(groups_p)])))
+                    if stc == "exc" or ans is not True:
+                        ctx.violation("C07/consistent-with-wrong:pickled-dataset", f"the partition {groups_p} of a dataset "
+                                      f"pickled by another interpreter is reported inconsistent with the ranking made of its own "
+                                      f"groups ({exc_desc(ans) if stc == 'exc' else ans})", {"ds": raw_p, "pickled_elsewhere": True},
+                                      observed=repr(ans), expected=True)
+                else:
+                    ctx.violation("C07/parfront-not-a-partition", f"ParFront {groups_p} of a dataset pickled by another "
+                                  "interpreter is not a partition of its universe", {"ds": raw_p, "pickled_elsewhere": True})
     # -- consistent_with ------------------------------------------------------------------------------
     groups, cons = make_pair(case)
     truth = ref.respects(cons, groups)
@@ -240,6 +264,8 @@ def reach(counters, tier, info):
                             ("optimal consensuses checked against ParFront", "optima_checked", 2000 * k),
                             ("cases with several optima", "cases_with_several_optima", 100 * k),
                             ("consistent_with pairs judged", "consistent_pairs", 1000 * k),
+                            ("partitions of string-named datasets pickled by an interpreter with another hash seed",
+                             "partitions_of_datasets_pickled_by_another_interpreter", 40 if tier == "quick" else 100),
                             ("Dataset objects partitioned again after an in-place mutation", "runs_after_in_place_mutation", 150 * k),
                             ("datasets of 11+ elements judged by the composite block oracle (all optima known)",
                              "blocks_strict", 20 * k)]:
